@@ -518,7 +518,7 @@ pub fn run(tier: Tier, replay: Option<&str>) {
         }
     }
     // ---- (B) histories
-    let depth = if th { 5 } else { 4 };
+    let depth = if crate::ctx::deep() { 7 } else if th { 5 } else { 4 };
     let mut states = 0u64;
     let mut transitions = 0u64;
     let mut capped = false;
